@@ -37,10 +37,10 @@ CLAIMS = {
         "technique": "TLC exhaustive check of the header-word views + TLC trace validation of getter observations against the TLA+ summary",
     },
     "C05": {
-        "text": "For every accepted packet of the corpus (TLA+-born in three layouts, generated, boundary, repository packets) TLC validates the recorded result of uncompress against the post-condition written in TLA+: accepted by the policy, identical header, identical record sequence with byte-identical names/types/classes/TTLs and canonical data, no pointer in any understood name, unchanged by a second decompression; and for every record boundary of the input (start of every record including the question and OPT, and the end) the carried offset equals the same boundary of the output.",
+        "text": "TLC model-checks the record-by-record re-emission with its reference-offset latch (spec/Uncompress.tla) for all packets of up to 4 records with input / output sizes in {1,2,3} and every reference offset: the carried offset of every boundary is the same boundary of the output and the latch fires exactly once (a latch on the record's end is the negative control). For every accepted packet of the corpus (TLA+-born in three layouts, generated, boundary, repository packets) TLC validates the recorded result of uncompress against the post-condition written in TLA+: accepted by the policy, identical header, identical record sequence with byte-identical names/types/classes/TTLs and canonical data, no pointer in any understood name, unchanged by a second decompression; and for every record boundary of the input (start of every record including the question and OPT, and the end) the carried offset equals the same boundary of the output.",
         "design_ref": "DESIGN.md section 5, C05",
         "note": TB + "Offsets that are not record boundaries are outside the statement and not judged.",
-        "technique": "TLC trace validation of decompression results against a TLA+ post-condition (stateless events, all record boundaries)",
+        "technique": "TLC model checking of a TLA+ re-emission machine + TLC trace validation of decompression results against a TLA+ post-condition (all record boundaries)",
     },
     "C06": {
         "text": "TLC model-checks the suffix-dictionary machine (spec/Compress.tla: 3 slots so that wrap-around and the pinned first slot are reached, MaxRefs = 2) over all sequences of up to 4 names: every dictionary entry resolves in the output to its suffix, the output is faithful, not longer, and needs no more than MaxRefs jumps; the two defects of the pinned tree (input-coordinate offsets, untracked chain depth) are negative controls TLC must detect. The real compress() is then run on accepted pointer-free packets (TLA+-born plain layout, generator, decompressed forms of compressed packets, families with nesting to depth 40, up to 70 distinct suffixes, 120..132-byte suffixes, names beyond offset 16383, mixed-case duplicates, OPT at every position) and TLC validates: accepted, not longer, same message up to case with the question byte-identical, OPT in place, and decompressing gives back the input up to case.",
